@@ -1,79 +1,61 @@
+// symgo: bounded symbolic execution of Go SSA + SMT, for the minidyn properties.
+//
+//	symgo check <PROPERTY> [--tier quick|thorough]   decide a property (reads /verif/checks.json)
+//	symgo replay <file.json>                         re-run one counterexample against the native build
+//	symgo run -pkg ./core -fn VerifX [-p k=v,...]    explore one harness in this process (debugging)
+//	symgo worker ...                                 (internal) exploration worker
 package main
 
 import (
-	"encoding/json"
-	"os/exec"
 	"flag"
 	"fmt"
 	"os"
+	"strconv"
 	"strings"
 	"time"
 
-	"golang.org/x/tools/go/packages"
 	"golang.org/x/tools/go/ssa"
-	"golang.org/x/tools/go/ssa/ssautil"
 
 	"symgo/interp"
 )
 
 func main() {
-	repo := flag.String("repo", "/repo", "repository root")
-	pkgPat := flag.String("pkg", "./interpreter", "package containing the harness")
-	harness := flag.String("harness", "", "harness function name")
-	overlay := flag.String("overlay", "", "overlay JSON {virtual: real}")
-	maxPaths := flag.Int("maxpaths", 1<<30, "path cap")
-	slog := flag.String("solverlog", "", "file for solver script")
-	shard := flag.String("shard", "", "i/W: explore only the subtrees assigned to worker i of W")
-	shardDepth := flag.Int("sharddepth", 3, "number of leading forks that identify a subtree")
-	replayDir := flag.String("replaydir", "", "if set, replay each violation natively using this scratch dir")
-	flag.Parse()
-
-	ov := map[string][]byte{}
-	if *overlay != "" {
-		var m map[string]string
-		b, err := os.ReadFile(*overlay)
-		if err != nil {
-			panic(err)
-		}
-		if err := json.Unmarshal(b, &m); err != nil {
-			panic(err)
-		}
-		for v, r := range m {
-			c, err := os.ReadFile(r)
-			if err != nil {
-				panic(err)
-			}
-			ov[v] = c
-		}
-	}
-	t0 := time.Now()
-	cfg := &packages.Config{Mode: packages.LoadAllSyntax, Dir: *repo, Overlay: ov, BuildFlags: []string{"-tags=verif"},
-		Env: append(os.Environ(), "GOFLAGS=-mod=mod", "GOPROXY=off", "GOSUMDB=off")}
-	pkgs, err := packages.Load(cfg, *pkgPat, "runtime")
-	if err != nil {
-		panic(err)
-	}
-	if packages.PrintErrors(pkgs) > 0 {
+	if len(os.Args) < 2 {
+		fmt.Println("usage: symgo check|replay|run|worker ...")
 		os.Exit(2)
 	}
-	prog, spkgs := ssautil.AllPackages(pkgs, ssa.InstantiateGenerics|ssa.SanityCheckFunctions)
-	prog.Build()
-	tLoad := time.Since(t0)
+	switch os.Args[1] {
+	case "check":
+		os.Exit(checkMain(os.Args[2:]))
+	case "replay":
+		os.Exit(replayMain(os.Args[2:]))
+	case "worker":
+		workerMain(os.Args[2:])
+	case "run":
+		runMain(os.Args[2:])
+	default:
+		fmt.Println("unknown command", os.Args[1])
+		os.Exit(2)
+	}
+}
 
-	var inits []*ssa.Package
-	for _, p := range prog.AllPackages() {
-		if strings.HasPrefix(p.Pkg.Path(), "github.com/truora/minidyn") || p.Pkg.Path() == "errors" {
-			inits = append(inits, p)
-		}
+func runMain(args []string) {
+	fs := flag.NewFlagSet("run", flag.ExitOnError)
+	pkgPat := fs.String("pkg", "./core", "package containing the harness")
+	harness := fs.String("fn", "", "harness function name")
+	maxPaths := fs.Int("maxpaths", 1<<30, "path cap")
+	slog := fs.String("solverlog", "", "file for solver script")
+	params := fs.String("p", "", "k=v,... harness parameters")
+	known := fs.String("known", "", "comma separated known findings")
+	fs.Parse(args)
+	t0 := time.Now()
+	l, err := load(*pkgPat)
+	if err != nil {
+		fmt.Println(err)
+		os.Exit(2)
 	}
-	// order: dependencies first (init of a package calls its imports' init itself in SSA, guarded by init$guard)
-	var main *ssa.Package
-	var fn *ssa.Function
-	for _, p := range spkgs {
-		if p != nil && p.Func(*harness) != nil {
-			main, fn = p, p.Func(*harness)
-		}
-	}
+	tLoad := time.Since(t0)
+	hp, fn := l.harness(*harness)
 	if fn == nil {
 		fmt.Println("no such harness", *harness)
 		os.Exit(2)
@@ -82,78 +64,35 @@ func main() {
 	if *slog != "" {
 		lf, _ = os.Create(*slog)
 	}
-	m := interp.NewMachine(prog, []*ssa.Package{main}, lf)
+	m := interp.NewMachine(l.prog, []*ssa.Package{hp}, lf)
 	m.MaxPaths = *maxPaths
-	if *shard != "" {
-		var i, w int
-		fmt.Sscanf(*shard, "%d/%d", &i, &w)
-		m.SetShard(i, w, *shardDepth)
+	p := map[string]int{}
+	for _, kv := range strings.Split(*params, ",") {
+		if k, v, ok := strings.Cut(kv, "="); ok {
+			p[k], _ = strconv.Atoi(v)
+		}
 	}
+	m.SetParams(p)
+	kn := map[string]bool{}
+	for _, k := range strings.Split(*known, ",") {
+		if k != "" {
+			kn[k] = true
+		}
+	}
+	m.SetKnown(kn)
 	t1 := time.Now()
 	res := m.Explore(fn)
 	tRun := time.Since(t1)
-	fmt.Printf("load=%.1fs run=%.2fs paths=%d skipped=%d infeasible=%d queries=%d solver=%.2fs steps=%d maxtrail=%d\n",
-		tLoad.Seconds(), tRun.Seconds(), res.Paths, res.Skipped, res.Infeasible, res.Queries, res.SolverTime.Seconds(), res.Steps, res.MaxTrail)
+	fmt.Printf("load=%.1fs run=%.2fs paths=%d infeasible=%d obligations=%d discharged=%d queries=%d solver=%.2fs steps=%d maxtrail=%d\n",
+		tLoad.Seconds(), tRun.Seconds(), res.Paths, res.Infeasible, res.Obligations, res.Discharged, res.Queries, res.SolverTime.Seconds(), res.Steps, res.MaxTrail)
 	fmt.Println("reached:", res.Reached)
 	fmt.Println("unsupported:", res.Unsupported)
 	fmt.Println("panics:", res.Panics)
-	if *replayDir != "" {
-		os.MkdirAll(*replayDir, 0o755)
-		for i, v := range res.Violations {
-			if i >= 8 {
-				break
-			}
-			ok, out := replay(*repo, *pkgPat, main.Pkg.Name(), *harness, *overlay, *replayDir, i, v)
-			fmt.Printf("REPLAY %d kind=%s msg=%q reproduced=%v\n", i, v.Kind, firstN(v.Msg, 80), ok)
-			if !ok {
-				fmt.Println(firstN(out, 600))
-			}
-		}
-		return
-	}
 	for i, v := range res.Violations {
-		if i >= 2000 {
+		if i >= 200 {
 			fmt.Printf("... %d more\n", len(res.Violations)-i)
 			break
 		}
 		fmt.Printf("VIOLATION kind=%s msg=%q model=%s\n", v.Kind, v.Msg, strings.Join(strings.Fields(v.Model), " "))
 	}
-}
-
-func firstN(s string, n int) string {
-	if len(s) > n {
-		return s[:n]
-	}
-	return s
-}
-
-// replay compiles the same harness natively (go test -overlay) with nd reading the model.
-func replay(repo, pkgPat, pkgName, harness, overlayFile, dir string, idx int, v interp.Violation) (bool, string) {
-	var m map[string]string
-	b, _ := os.ReadFile(overlayFile)
-	json.Unmarshal(b, &m)
-	valFile := fmt.Sprintf("%s/replay_%d.json", dir, idx)
-	vb, _ := json.MarshalIndent(map[string]interface{}{"harness": harness, "kind": v.Kind, "msg": v.Msg, "values": v.Values}, "", " ")
-	os.WriteFile(valFile, vb, 0o644)
-	testSrc := fmt.Sprintf(`//go:build verif
-
-package %s
-
-import "testing"
-
-func TestVerifReplay(t *testing.T) { %s() }
-`, pkgName, harness)
-	testFile := fmt.Sprintf("%s/replay_%d_test.go", dir, idx)
-	os.WriteFile(testFile, []byte(testSrc), 0o644)
-	rel := strings.TrimPrefix(pkgPat, "./")
-	m[repo+"/"+rel+"/zz_verif_replay_test.go"] = testFile
-	ovFile := fmt.Sprintf("%s/overlay_%d.json", dir, idx)
-	ob, _ := json.Marshal(map[string]interface{}{"Replace": m})
-	os.WriteFile(ovFile, ob, 0o644)
-	cmd := exec.Command("go", "test", "-vet=off", "-count=1", "-tags", "verif", "-overlay", ovFile, "-run", "^TestVerifReplay$", pkgPat)
-	cmd.Dir = repo
-	cmd.Env = append(os.Environ(), "VERIF_REPLAY="+valFile, "GOFLAGS=-mod=mod", "GOPROXY=off", "GOSUMDB=off")
-	out, err := cmd.CombinedOutput()
-	// reproduced == the native run failed (assertion panic or runtime panic)
-	return err != nil && strings.Contains(string(out), "FAIL"), string(out)
 }
